@@ -1519,7 +1519,7 @@ fn main() {
     }
     let (out, tier) = (args[1].clone(), args[2].clone());
     std::fs::create_dir_all(&out).unwrap();
-    let legs = std::env::var("H13_LEGS").unwrap_or_else(|_| "ids,reid,oracle".into());
+    let legs = std::env::var("H13_LEGS").unwrap_or_else(|_| "ids,reid,oracle,disk".into());
     let mut summary = serde_json::Map::new();
     let mut samples: Vec<String> = vec![];
     let t0 = Instant::now();
@@ -1630,16 +1630,25 @@ fn main() {
         summary.insert("oracle_live_db_ms".into(), json!(ims as u64));
         summary.insert("oracle_seconds".into(), json!(t1.elapsed().as_secs_f64()));
     }
+    if legs.contains("disk") {
+        let t2 = Instant::now();
+        let (m, smp, f) = h13::disk::run_leg(&out, &tier);
+        summary.extend(m);
+        samples.extend(smp);
+        failures.extend(f);
+        summary.insert("disk_seconds".into(), json!(t2.elapsed().as_secs_f64()));
+    }
     std::fs::write(format!("{out}/summary.json"), serde_json::to_string_pretty(&Value::Object(summary.clone())).unwrap()).unwrap();
     std::fs::write(format!("{out}/samples.txt"), samples.join("\n") + "\n").unwrap();
     std::fs::write(format!("{out}/oracle_failures.json"), serde_json::to_string_pretty(&failures).unwrap()).unwrap();
     println!(
-        "h13: ids files={} nodes={} reid cases={} | oracle histories={} steps={} failures={} ({:.0}s)",
+        "h13: ids files={} nodes={} reid cases={} | oracle histories={} steps={} disk steps={} failures={} ({:.0}s)",
         summary.get("ids_files").cloned().unwrap_or(json!(0)),
         summary.get("ids_nodes").cloned().unwrap_or(json!(0)),
         summary.get("reid_cases").cloned().unwrap_or(json!(0)),
         summary.get("oracle_histories").cloned().unwrap_or(json!(0)),
         summary.get("oracle_steps").cloned().unwrap_or(json!(0)),
+        summary.get("disk_steps").cloned().unwrap_or(json!(0)),
         failures.len(),
         t0.elapsed().as_secs_f64()
     );
@@ -1647,6 +1656,9 @@ fn main() {
 
 fn replay(path: &str) {
     let v: Value = serde_json::from_str(&std::fs::read_to_string(path).expect("read replay")).expect("json");
+    if v.get("disk_history").is_some() {
+        h13::disk::replay(&v);
+    }
     let proj = Project { name: v["project"].as_str().unwrap_or("?").into(), src: v["project_src"].as_str().expect("project_src").into() };
     let steps: Vec<Step> = v["history"].as_array().expect("history").iter().map(Step::from_json).collect();
     let work = PathBuf::from(format!("/tmp/C13/replay-{}", std::process::id()));
